@@ -79,6 +79,17 @@ Theorem C16_set_only_own_domain : forall j u ms now, u_host u <> [] ->
 Proof. exact set_only_own_domain. Qed.
 Print Assumptions C16_set_only_own_domain.
 
+(* ... and one site cannot replace or remove another site's cookie: a stored cookie whose domain the response
+   host does not domain-match is still there after update_cookies, same value, same deadline (unless its own
+   deadline has passed, in which case _do_expiration may drop it). *)
+Theorem C16_foreign_cookies_untouched : forall j u ms now k c, u_host u <> [] ->
+  In (k, c) (j_cookies j) -> ~ domain_match (k_dom k) (u_host u) ->
+  (forall w, lookup k (j_expirations j) = Some w -> (now < w)%Z) ->
+  In (k, c) (j_cookies (update j u ms now)) /\
+  lookup k (j_expirations (update j u ms now)) = lookup k (j_expirations j).
+Proof. exact foreign_cookies_untouched. Qed.
+Print Assumptions C16_foreign_cookies_untouched.
+
 (* ---- The mechanisms the property names, as lemmas in their own right. *)
 
 (* _is_domain_match is exactly RFC 6265 5.1.3 *)
